@@ -216,7 +216,8 @@ impl RenderContext {
         let tf = match &self.image_header.metadata.colour_encoding {
             ColourEncoding::Enum(e) => e.tf,
             ColourEncoding::IccProfile(_) => {
-                let icc = self.embedded_icc().unwrap();
+                // The header may ask for an ICC profile and carry an empty one.
+                let icc = self.embedded_icc()?;
                 jxl_color::icc::icc_tf(icc)?
             }
         };
